@@ -14,6 +14,7 @@ RULE = ("the C01 (link integrity; lite as transmitter, as receiver, on both ends
         "reduced reference model; and load_ack(buf, pipe) for every buffer length 0..33 x pipe "
         "-1..6 x TX-FIFO fill 0..3. Non-trivial/distinct as in the re-used checks, tagged by "
         "sub-workload.")
+RULE += (" Later rounds added: whatever the shared C01/C02/C08/C10 harnesses gained, plus ACK payloads enabled after a static configuration.")
 REQUIRED = {"bus_bytes": 300, "peer_read": 300, "buffer_unmodified": 300, "return_truth": 300,
             "no_leak": 300, "rx_entry_pipe0": 100, "status_attrs": 1000, "read": 100,
             "load_ack": 500, "lite_cfg_snapshot": 1000, "lite_cfg_getter": 1000}
